@@ -43,7 +43,7 @@ class C10(pw.P21Check):
     with_inverse = False
 
     def n_plans(self, tier):
-        return 8000 if tier == "quick" else 200000
+        return 16000 if tier == "quick" else 200000
 
     def time_budget(self, tier):
         return 150 if tier == "quick" else 1500
@@ -51,7 +51,7 @@ class C10(pw.P21Check):
     # ------------------------------------------------------------ generator
     def gen(self, seed, i, tier):
         r = core.rng(seed, self.prop, i)
-        nbase = 60 if tier == "quick" else 1500
+        nbase = 330 if tier == "quick" else 3000
         plan = self.base_plan(seed, r.randrange(nbase), popts={"ids": r.choice(["dense", "sparse", "scattered"]), "rich_strings": True})
         ids = [x["id"] for x in plan["model"]["insts"]]
         hist = []
